@@ -197,11 +197,22 @@ Section Create.
   (* ---- expected paths / missing files ----------------------------------------------------------------- *)
   Definition recorded_paths : list path :=
     flat_map (fun h => flat_map (fun g => map (fun r => lh_root h ++ r_path r) (g_records g)) (lh_gens h)) hs.
-  Definition rename_map : list (path * path) :=       (* previous path -> path, later entries win *)
-    flat_map (fun h => flat_map (fun g => flat_map (fun r => match r_prev r with
-                                                             | Some q => [(lh_root h ++ q, lh_root h ++ r_path r)]
-                                                             | None => []
-                                                             end) (g_records g)) (lh_gens h)) hs.
+  (* MHLHistory.renamed_path_with_previous_path (as repaired): previous path -> path.  Python dicts become lists in which
+     the LAST entry of a key is the dict's value.  For each hash list in generation order: every entry whose target is
+     renamed again by this hash list follows it (a -> b, then b -> c, gives a -> c), then dict.update with this hash list's
+     own renames.  The maps of the histories are merged with dict.update. *)
+  Definition gen_renames (h : lhist) (g : gen) : list (path * path) :=
+    flat_map (fun r => match r_prev r with
+                       | Some q => [(lh_root h ++ q, lh_root h ++ r_path r)]
+                       | None => []
+                       end) (g_records g).
+  Definition lookup_last (m : list (path * path)) (p : path) : option path :=
+    match find_last (fun x => path_eqb (fst x) p) m with Some x => Some (snd x) | None => None end.
+  Definition rename_step (h : lhist) (m : list (path * path)) (g : gen) : list (path * path) :=
+    let ren := gen_renames h g in
+    map (fun kv => match lookup_last ren (snd kv) with Some p => (fst kv, p) | None => kv end) m ++ ren.
+  Definition hist_rename_map (h : lhist) : list (path * path) := fold_left (rename_step h) (lh_gens h) [].
+  Definition rename_map : list (path * path) := flat_map hist_rename_map hs.
   Definition renamed (p : path) : path :=
     match find_last (fun x => path_eqb (fst x) p) rename_map with Some x => snd x | None => p end.
   Definition expected_paths : list path := dedup_by path_eqb [] (map renamed recorded_paths).
